@@ -6,6 +6,15 @@ From JS Require DirectiveTables.
 From Coq Require Import Lia.
 Open Scope Z_scope.
 
+Lemma placed_unfold parent d :
+  placed parent d =
+  negb (N.eqb (d_kind d) DirectiveTables.dir_Macro) &&
+  (match parent with None => is_allowed_for_root (d_kind d) | Some p => is_allowed_in p (d_kind d) end) &&
+  forallb (placed (Some (d_kind d))) (d_children d).
+Proof.
+  destruct d as [k kw c nm un an bd ex tr cs]. cbn [placed d_kind d_children]. reflexivity.
+Qed.
+
 Definition parent_kind_of (anc : list dir) : option N := match anc with [] => None | p :: _ => Some (d_kind p) end.
 
 (* facts about the regenerated table, by computation *)
@@ -175,13 +184,13 @@ Section NoPanic.
   Variable banned : list N.
 
   (* one top-level or nested block: no panic, and c.Info stays set *)
-  Lemma add_branch_total fuel : forall pf c d anc,
-    placed pf (parent_kind_of anc) d = true -> place_ok d anc -> info_ready c anc ->
+  Lemma add_branch_total fuel : forall c d anc,
+    placed (parent_kind_of anc) d = true -> place_ok d anc -> info_ready c anc ->
     (forall pn, add_branch read_body banned fuel c d anc <> CPanic pn) /\
     (forall c', add_branch read_body banned fuel c d anc = COk c' -> c_info c <> None -> c_info c' <> None).
   Proof.
-    induction fuel as [|fuel IH]; intros pf c d anc PL HP HI; cbn [add_branch]; [split; [discriminate|discriminate]|].
-    destruct pf as [|pf]; [discriminate|]. cbn [placed] in PL.
+    induction fuel as [|fuel IH]; intros c d anc PL HP HI; cbn [add_branch]; [split; [discriminate|discriminate]|].
+    rewrite placed_unfold in PL.
     apply andb_prop in PL as [PL1 PLc]. apply andb_prop in PL1 as [NM _].
     (* the directive itself *)
     set (r := if existsb (N.eqb (d_kind d)) banned then add_directive banned c d anc
@@ -214,17 +223,17 @@ Section NoPanic.
                  | [] => COk c
                  | x :: rest => match add_branch read_body banned fuel c x (d :: anc) with COk c' => go c' rest | o => o end
                  end).
-    assert (G : forall cs k0, forallb (placed pf (Some (d_kind d))) cs = true -> info_ready k0 (d :: anc) ->
+    assert (G : forall cs k0, forallb (placed (Some (d_kind d))) cs = true -> info_ready k0 (d :: anc) ->
                 (forall pn, go k0 cs <> CPanic pn) /\
                 (forall c', go k0 cs = COk c' -> c_info k0 <> None -> c_info c' <> None)).
     { induction cs as [|x rest IHc]; intros k0 PLs HI1; cbn [go].
       - split; [discriminate|]. intros c' E. injection E as <-. auto.
       - cbn [forallb] in PLs. apply andb_prop in PLs as [Px Prest].
         assert (HPx : place_ok x (d :: anc)).
-        { cbn [place_ok]. destruct pf as [|pf']; [discriminate|]. cbn [placed] in Px.
-          apply andb_prop in Px as [Px1 _]. apply andb_prop in Px1 as [_ A]. split; [exact A|].
+        { cbn [place_ok]. pose proof Px as Px'. rewrite placed_unfold in Px'.
+          apply andb_prop in Px' as [Px1 _]. apply andb_prop in Px1 as [_ A]. split; [exact A|].
           intros Em. rewrite Em in NM. vm_compute in NM. discriminate. }
-        destruct (IH pf k0 x (d :: anc) Px HPx HI1) as [N1 N2].
+        destruct (IH k0 x (d :: anc) Px HPx HI1) as [N1 N2].
         destruct (add_branch read_body banned fuel k0 x (d :: anc)) as [c2| | |] eqn:B.
         + assert (HI2 : info_ready c2 (d :: anc)).
           { cbn [info_ready] in *. intros K. apply (N2 c2 eq_refl). apply HI1. exact K. }
@@ -238,14 +247,14 @@ Section NoPanic.
   Qed.
 
   (* the whole interaction pass over a well-nested forest never reaches an impossible state *)
-  Theorem add_all_never_panics fuel pf ds : forall c,
-    forallb (placed pf None) ds = true -> forall pn, add_all read_body banned fuel c ds <> CPanic pn.
+  Theorem add_all_never_panics fuel ds : forall c,
+    forallb (placed None) ds = true -> forall pn, add_all read_body banned fuel c ds <> CPanic pn.
   Proof.
     induction ds as [|d ds IH]; intros c PL pn; cbn [add_all]; [discriminate|].
     cbn [forallb] in PL. apply andb_prop in PL as [Pd Pds].
     assert (HP : place_ok d []).
-    { cbn [place_ok]. destruct pf; [discriminate|]. cbn [placed] in Pd. apply andb_prop in Pd as [P1 _]. apply andb_prop in P1 as [_ A]. exact A. }
-    destruct (add_branch_total fuel pf c d [] Pd HP I) as [N1 _].
+    { cbn [place_ok]. pose proof Pd as Pd'. rewrite placed_unfold in Pd'. apply andb_prop in Pd' as [P1 _]. apply andb_prop in P1 as [_ A]. exact A. }
+    destruct (add_branch_total fuel c d [] Pd HP I) as [N1 _].
     destruct (add_branch read_body banned fuel c d []) as [c1| | |] eqn:B.
     - apply IH. exact Pds.
     - discriminate.
